@@ -403,8 +403,43 @@ Builtins2Cases ==
      prog |-> Prog(B2Rand(Direct), <<>>, <<>>, <<IdFunc>>),
      variants |-> << Prog(B2Rand(ViaVar), <<>>, <<>>, <<IdFunc>>), Prog(B2Rand(ViaFunc), <<>>, <<>>, <<IdFunc>>) >>] }
 
+\* ------------------------------------------------------------ F-valuetype
+\* The VALUE (not only the truth) of && and ||, and the TYPE (string) of a concatenation.
+\*  - x && y and x || y are 1 or 0 whatever x and y are: also when the left operand decides (5 || ..., "" && ...)
+\*    and the right operand is itself boolean-valued (a comparison, !, in, ~, a nested && / ||);
+\*  - a concatenation is a string even when one operand is empty or unset and the other is a number: it
+\*    compares as a string, and stays a string through assignment and function calls.
+\* $0 = "10 9 abc"
+LogicLeft  == { N(5), N(0), S(<<c_a>>), S(<<>>), V("u"), Fld(N(1)), Fld(N(3)), S(<<D0>>) }
+LogicRight == { Bin("<", V("m"), N(2)), Bin(">", V("m"), N(2)), Un("!", V("m")), InA(N(1), "arr"), Mat(Fld(N(3)), ReB),
+                Grp(Bin("==", V("m"), N(0))), Bin("&&", V("m"), N(1)), Bin("||", V("m"), N(0)), N(7), S(<<>>), V("u") }
+LogicProg(e) == BeginOnly(<<SExpr(Asg(Fld(N(0)), S(REC3))), SExpr(Asg(V("m"), N(3))), SPrint(<<S(<<LBRK>>), e, S(<<RBRK>>)>>),
+                            SPrint(<<Cc(e, S(<<>>)), Bin("+", e, N(1)), Bin("==", e, S(<<D1>>))>>)>>)
+LogicCases ==
+  {LET e == Bin(op, x, y)
+   IN [fam |-> "valuetype", mech |-> "logic-value/" \o op, input |-> <<>>, prog |-> LogicProg(e),
+       variants |-> << LogicProg(Grp(Asg(V("t"), e))), LogicProg(Call("id", <<e>>)),
+                       LogicProg(Cnd(e, N(1), N(0))), LogicProg(Un("!", Un("!", e))) >>]
+   : op \in {"&&", "||"}, x \in LogicLeft, y \in LogicRight}
+CatEmpty == { V("u"), S(<<>>), Idx("fresh", N(1)) }
+CatNum   == { N(10), Fld(N(1)), Bin("+", N(9), N(1)) }
+CatProg(e) == BeginOnly(<<SExpr(Asg(Fld(N(0)), S(REC3))),
+                          SPrint(<<e, Bin("<", e, N(9)), Bin("<", e, Fld(N(2))), Bin("==", e, N(10)), Bin("<", e, S(<<D9>>))>>),
+                          SExpr(Asg(V("w"), e)), SPrint(<<Bin("<", V("w"), N(9)), Bin("<", V("w"), Fld(N(2))), Bin(">", V("w"), N(9))>>),
+                          SIf(Bin("<", e, N(9)), <<T1(<<C_S>>)>>, <<T1(<<C_N>>)>>)>>)
+CatTypeCases ==
+  {LET e == IF left THEN Cc(em, nm) ELSE Cc(nm, em)
+       e3 == IF left THEN Cc(Cc(em, S(<<>>)), nm) ELSE Cc(Cc(nm, S(<<>>)), em)
+   IN [fam |-> "valuetype", mech |-> "concat-is-string", input |-> <<>>, prog |-> CatProg(e),
+       variants |-> << CatProg(e3), CatProg(Call("id", <<e>>)), CatProg(Grp(Asg(V("t"), e))) >>]
+   : em \in CatEmpty, nm \in CatNum, left \in BOOLEAN}
+ValueTypeProgs(pg) == Prog(pg.begin, pg.rules, pg.end, <<IdFunc>>)
+ValueTypeCases ==
+  {[cs EXCEPT !.prog = ValueTypeProgs(cs.prog), !.variants = [j \in 1..Len(cs.variants) |-> ValueTypeProgs(cs.variants[j])]]
+   : cs \in LogicCases \cup CatTypeCases}
+
 Cases(fm) ==
-  CASE fm = "builtins2" -> Builtins2Cases [] fm = "assign" -> AssignCases [] fm = "cond" -> CondCases [] fm = "loop" -> LoopCases
+  CASE fm = "valuetype" -> ValueTypeCases [] fm = "builtins2" -> Builtins2Cases [] fm = "assign" -> AssignCases [] fm = "cond" -> CondCases [] fm = "loop" -> LoopCases
     [] fm = "concat" -> ConcatCases [] fm = "call" -> CallCases [] fm = "const" -> ConstCases
     [] fm = "pattern" -> PatternCases [] fm = "flow" -> FlowCases [] fm = "misc" -> MiscCases [] fm = "fracconst" -> FracCases
 
